@@ -103,14 +103,25 @@ def census(prog):
         n = len(where.get(id(s), []))
         if n != 1:
             errs.append(("statement-count", type(s).__name__, n, ast.unparse(s)[:40]))
+    wrapped = {}
+    for name, b in cfg.items():
+        for i in b.instructions:
+            if isinstance(i, ast.Expr):
+                wrapped.setdefault(id(i.value), []).append(name)
     for t in tests:
         hits = where.get(id(t), [])
-        if len(hits) != 1:
-            errs.append(("test-count", type(t).__name__, len(hits), ast.unparse(t)[:40]))
-        else:
+        whits = wrapped.get(id(t), [])
+        if len(hits) + len(whits) != 1:
+            errs.append(("test-count", type(t).__name__, len(hits) + len(whits), ast.unparse(t)[:40]))
+        elif hits:
             b = cfg[hits[0]]
             if b.instructions[-1] is not t or len(b.jump_targets) != 2:
                 errs.append(("test-not-last-of-branching-block", type(t).__name__, hits[0]))
+        else:
+            # both arms were empty: the branch collapsed, the test is kept as an expression statement
+            b = cfg[whits[0]]
+            if len(b.jump_targets) != 1 or not isinstance(b.instructions[-1], ast.Expr) or b.instructions[-1].value is not t:
+                errs.append(("collapsed-test-not-last-of-fallthrough-block", type(t).__name__, whits[0]))
     # pruning: compare with the unpruned graph of a second fresh parse
     tree2 = ast.parse(prog.src).body
     U = AST2SCFGTransformer(tree2, prune=False).transform_to_ASTCFG()
@@ -137,9 +148,15 @@ def census(prog):
         kept = [ast.dump(i) for i in ub.instructions if not isinstance(i, NOOP)]
         if name in cfg:
             got = [ast.dump(i) for i in cfg[name].instructions]
+            want_t = [fwd(t) for t in ub.jump_targets]
+            if len(want_t) == 2 and want_t[0] == want_t[1] and len(cfg[name].jump_targets) == 1:
+                # both arms empty: collapsed to a fall-through, test kept as an expression statement
+                want_t = want_t[:1]
+                if kept and ub.instructions and isinstance(ub.instructions[-1], ast.expr):
+                    kept = kept[:-1] + [ast.dump(ast.Expr(ub.instructions[-1]))]
             if got != kept:
                 errs.append(("pruning-altered-block", name))
-            if [fwd(t) for t in ub.jump_targets] != list(cfg[name].jump_targets):
+            if want_t != list(cfg[name].jump_targets):
                 errs.append(("pruning-altered-targets", name, tuple(ub.jump_targets), tuple(cfg[name].jump_targets)))
             if name not in reach:
                 errs.append(("unreachable-block-kept", name))
